@@ -126,7 +126,7 @@ CHECKS.update({
              "AlpenglowAbs (Trace_Progress.tla) and, at the end of the trace, TLC evaluates the progress goal on the windows "
              "that started after stabilisation: every slot of a correct live leader's window finalized at every correct live "
              "node and not skip-certified, by a fast-finalization certificate when >= 80% of the stake is responsive; windows of "
-             "crashed / silent leaders skip-certified; highest finalized slot keeps up. An execution with an equivocating leader is judged as well (correct leaders behind it must still be finalized); every node step is validated against Pool.tla / Votor.tla (Trace_Node.tla); timer arming is compared in the Votor replay.",
+             "crashed / silent leaders skip-certified; highest finalized slot keeps up. An execution with an equivocating leader is judged as well (correct leaders behind it must still be finalized); every node step is validated against Pool.tla / Votor.tla (Trace_Node.tla); timer arming is compared in the Votor replay. Producer.tla replay: a correct leader's slices close and its block completes at the specified step with the READY parent as effective parent, whenever ParentReady arrives relative to slice production.",
         note="virtual time with the real timeout constants; the adequacy of the constants on a real network is not decided; "
              "sampled schedules (seeds), not all of them; a vacuity guard requires judged windows",
         technique="TLC exhaustive BFS of the abstract protocol with leaders (progress as terminal-state property); code->spec trace validation (Trace_Progress.tla) of simulated multi-node executions",
@@ -197,7 +197,7 @@ CHECKS.update({
              "repair responses, repair requests with unknown blocks / maximal indices / unknown senders and bursts of oversized "
              "transactions, and as leader disseminates validly signed malformed blocks (parent in a later / the same slot, "
              "undecodable payload, first slice without parent, contradictory slices, unknown parent); every panic anywhere in "
-             "the process is a violation and the execution must still satisfy the progress goal of Trace_Progress.tla. Every node step of those executions is also validated against Pool.tla / Votor.tla (Trace_Node.tla).",
+             "the process is a violation and the execution must still satisfy the progress goal of Trace_Progress.tla. Every node step of those executions is also validated against Pool.tla / Votor.tla (Trace_Node.tla). Component model Producer.tla: the leader's block production with exact slice byte accounting; every interleaving of transactions (boundary sizes, oversized), ticks and ParentReady (same or other parent) is checked by TLC (NoOverflow, NoPanic, one last slice, at most one parent switch, effective parent = ready parent, transaction conservation, NeverStuck) and every transition is replayed into the real BlockProducer (real block_production_loop, wait_for_first_slot, PoolImpl, BlockstoreImpl, shredder) on the paused clock; the transcription of the pre-repair code must violate NoOverflow.",
         note="byte-level malformation below the wire grammar is not covered (C19 covers grammar-level classes); sampled "
              "schedules; hostile repair responses are unsolicited or mismatched (solicited-but-forged ones: C14); OS/UDP errors not covered",
         technique="TLA+ pipeline model + TLC BFS; hostile-traffic simulation of real nodes with panic capture and code->spec trace validation",
